@@ -174,6 +174,9 @@ def _chunk(seed, lo, hi, extra):
             if r.random() < 0.3:
                 lx = '<?xml version="1.0" encoding="UTF-8"?>\n' + lx
             lf, rf = os.path.join(d, f"l{idx}.xml"), os.path.join(d, f"r{idx}.xml")
+            if idx % 4 == 1:
+                # the same two file names as in earlier cases of this process, with new content
+                lf, rf = os.path.join(d, "again_l.xml"), os.path.join(d, "again_r.xml")
             open(lf, "w", encoding="utf-8", newline="").write(lx)
             open(rf, "w", encoding="utf-8", newline="").write(rx)
             st.evaluations += 1
